@@ -801,6 +801,41 @@ pub fn regressions(ctx: &mut Ctx) {
         cases.push(("line", name, s.clone(), p));
         cases.push(("conv.line", name, s, p));
     }
+    // fix ee1744a (found by the gen::line seeds of this check): a row address that is not a
+    // multiple of minimum_instruction_length (DW_LNS_fixed_advance_pc is not scaled; a
+    // mid-sequence DW_LNE_set_address need not be aligned) tripped a debug assertion in
+    // write::LineProgram::op_advance during conversion (silent truncation in release builds)
+    for (mil, mid_set_address) in [(4u8, false), (4, true), (0xf0, false), (0, false)] {
+        let mut a = Asm::new(true);
+        let m = a.begin_length(false);
+        a.u16(4);
+        let hl = a.len();
+        a.u32(0);
+        let hs = a.len();
+        a.u8(mil).u8(2).u8(1).u8(0xfb).u8(14).u8(13);
+        for l in [0u8, 1, 1, 1, 1, 0, 0, 0, 1, 0, 0, 1] {
+            a.u8(l);
+        }
+        a.u8(0);
+        a.cstr(b"f.c").uleb(0).uleb(0).uleb(0);
+        a.u8(0);
+        let hlen = (a.len() - hs) as u64;
+        a.patch_uint(hl, 4, hlen);
+        a.u8(0).uleb(9).u8(2).u64(0x1000);
+        a.u8(1);
+        if mid_set_address {
+            a.u8(0).uleb(9).u8(2).u64(0x1006);
+        } else {
+            a.u8(9).u16(2);
+        }
+        a.u8(1).u8(2).uleb(3).u8(1);
+        a.u8(0).uleb(1).u8(1);
+        a.end_length(m);
+        let mut s = Secs::default();
+        s.set(SectionId::DebugLine, a.buf);
+        cases.push(("conv.line", "row address not a multiple of minimum_instruction_length", s.clone(), p));
+        cases.push(("line", "row address not a multiple of minimum_instruction_length", s, p));
+    }
     // die_ranges: low_pc near max + high_pc constant
     {
         let mut ab = Asm::new(true);
